@@ -39,7 +39,9 @@ def lin_cases(draw, tier="quick", nmin=1):
          # the same system in other units: operator times 10^Apow, data times 10^bpow (start vector and shift follow)
          "Apow": draw(st.sampled_from([0, 0, 0, -5, 5])), "bpow": draw(st.sampled_from([0, 0, 0, -6, 6])),
          # the requested relative tolerance (tight, or the 1e-6 a user would typically ask for)
-         "tol": draw(st.sampled_from([1e-12, 1e-12, 1e-6]))}
+         "tol": draw(st.sampled_from([1e-12, 1e-12, 1e-6])),
+         # the number type in which the start vector is written (the problem does not depend on it)
+         "x0_type": draw(st.sampled_from(["float64", "float64", "float64", "float32", "int"]))}
     return c
 
 
@@ -116,6 +118,15 @@ def run_cgls(c, rec):
         ref = x0 + np.linalg.pinv(Am) @ (b - Am @ x0)
     require(maxdiff(sol, ref) <= max(1e-7, 1e4 * tolr) * (np.max(np.abs(ref)) + np.max(np.abs(x0))) + 1e-140, "CGLS result differs from the reference solution",
             got=sol, ref=ref, tol=tolr)
+    if c.get("x0_type", "float64") != "float64" and c.get("layout") != "readonly":
+        # the same start vector written in another number type (float32, integers): the very same run
+        xq = np.round(x0) if c["x0_type"] == "int" else x0.astype(np.float32).astype(float)
+        sol_f, k_f = cuqi.solver.CGLS(op_forms(Am, c["form"]), b, xq.copy(), maxit, tolr, s).solve()
+        x_t = xq.astype(int) if c["x0_type"] == "int" else xq.astype(np.float32)
+        sol_t, k_t = must(lambda: cuqi.solver.CGLS(op_forms(Am, c["form"]), b, x_t, maxit, tolr, s).solve(), f"CGLS.solve from a {c['x0_type']} start vector")
+        require(k_t == k_f and maxdiff(sol_t, sol_f) <= 1e-13 * (np.max(np.abs(sol_f)) + np.max(np.abs(xq))) + 1e-140,
+                f"CGLS from a start vector written as {c['x0_type']} differs from the run from the same numbers as float64",
+                k=k_t, k_float64=k_f, diff=maxdiff(sol_t, sol_f))
     # matrix form and function form: same iterates and count
     sol2, k2 = cuqi.solver.CGLS(op_forms(Am, other_form(c["form"])), b, x0, maxit, tolr, s).solve()
     require(k2 == k and maxdiff(sol2, sol) <= 1e-10 * (np.max(np.abs(sol)) + np.max(np.abs(x0))) + 1e-140, "matrix form and function form of CGLS disagree", k=k, k2=k2)
